@@ -414,6 +414,8 @@ def gen(rng, n):
         ln = len(body)
         mem = rng.choice([1, 2, 3, 5, 8, 17, 40, 64, 102400, 102400, max(1, ln), max(1, ln - 1), ln + 1, max(1, ln - 2), ln + 2,
                           max(1, ln // 2)])
+        if ln > 2000:
+            mem = max(mem, 256)          # multi-kB bodies are not read byte by byte (cost only, nothing new is reached)
         maxb = None
         if rng.random() < 0.1:
             maxb = rng.choice([0, ln, max(0, ln - 1), ln + 1, ln // 2])
